@@ -7,7 +7,11 @@ package main
 //   perm  : Lean permOfTags                vs schema.Parse'd Creatable/Updatable/Readable/IgnoreMigration
 //   sao   : Lean selectAndOmit             vs Statement.SelectAndOmitColumns
 //   stmt  : Lean write set per write path  vs the column lists of the real DryRun statement
-// The end-to-end oracle (cell-by-cell table diff, model-free) is in c10_e2e.go.
+//           (incl. WHERE key columns of updates and deletes for every key shape, ON CONFLICT target of upserts)
+// Schemas: genC10Schema (single integer key first) and genC10SchemaK (no key / string key / composite keys with and
+// without a prioritized member / key members anywhere, with permission tags, inside embedded structs).
+// The end-to-end oracles (cell-by-cell table diff, model-free) are in c10_e2e.go (write set, single-key tables) and
+// c10_keys.go (row targeting on tables whose rows share partial keys + the rowsel tie).
 
 import (
 	"encoding/json"
@@ -28,9 +32,10 @@ import (
 const c10Table = "c10_t"
 
 type c10F struct {
-	Name string `json:"name"`
-	Kind string `json:"kind"` // uint | int | str | i64 | time
-	Tag  string `json:"tag"`  // content of the gorm tag
+	Name  string `json:"name"`
+	Kind  string `json:"kind"`            // uint | int | str | i64 | time
+	Tag   string `json:"tag"`             // content of the gorm tag
+	Embed string `json:"embed,omitempty"` // "Meta:m_" = the field lives in a nested struct field Meta tagged embedded;embeddedPrefix:m_ ("Meta:" = no prefix)
 }
 
 type c10Sch struct {
@@ -57,13 +62,67 @@ func c10Typ(kind string) reflect.Type {
 	return reflect.TypeOf("")
 }
 
-func (s c10Sch) Type() reflect.Type {
-	fs := make([]reflect.StructField, len(s.Fields))
+// c10Paths: reflect index path of every (flat) field; consecutive fields with the same non-empty Embed share one
+// nested struct field
+func (s c10Sch) c10Paths() [][]int {
+	out := make([][]int, len(s.Fields))
+	top, sub := -1, 0
 	for i, f := range s.Fields {
-		fs[i] = reflect.StructField{Name: f.Name, Type: c10Typ(f.Kind)}
-		if f.Tag != "" {
-			fs[i].Tag = reflect.StructTag(`gorm:"` + f.Tag + `"`)
+		if f.Embed != "" && i > 0 && s.Fields[i-1].Embed == f.Embed {
+			sub++
+			out[i] = []int{top, sub}
+			continue
 		}
+		top++
+		if f.Embed != "" {
+			sub = 0
+			out[i] = []int{top, 0}
+		} else {
+			out[i] = []int{top}
+		}
+	}
+	return out
+}
+
+func c10StructField(f c10F) reflect.StructField {
+	sf := reflect.StructField{Name: f.Name, Type: c10Typ(f.Kind)}
+	if f.Tag != "" {
+		sf.Tag = reflect.StructTag(`gorm:"` + f.Tag + `"`)
+	}
+	return sf
+}
+
+func c10EmbedPrefix(embed string) string {
+	if i := strings.Index(embed, ":"); i >= 0 {
+		return embed[i+1:]
+	}
+	return ""
+}
+
+func (s c10Sch) Type() reflect.Type {
+	fs := []reflect.StructField{}
+	for i := 0; i < len(s.Fields); {
+		f := s.Fields[i]
+		if f.Embed == "" {
+			fs = append(fs, c10StructField(f))
+			i++
+			continue
+		}
+		inner := []reflect.StructField{}
+		j := i
+		for ; j < len(s.Fields) && s.Fields[j].Embed == f.Embed; j++ {
+			inner = append(inner, c10StructField(s.Fields[j]))
+		}
+		name := f.Embed
+		if k := strings.Index(name, ":"); k >= 0 {
+			name = name[:k]
+		}
+		tag := "embedded"
+		if p := c10EmbedPrefix(f.Embed); p != "" {
+			tag += ";embeddedPrefix:" + p
+		}
+		fs = append(fs, reflect.StructField{Name: name, Type: reflect.StructOf(inner), Tag: reflect.StructTag(`gorm:"` + tag + `"`)})
+		i = j
 	}
 	return reflect.StructOf(fs)
 }
@@ -78,16 +137,129 @@ func c10Join(parts ...string) string {
 	return strings.Join(out, ";")
 }
 
+// c10KeyShapes: primary-key shapes (empty = model without any primary key).  Composite keys with and without a member
+// named ID (= PrioritizedPrimaryField), with an autoIncrement member, with autoIncrement:false, string members,
+// custom columns, an untagged ID beside a tagged key (ID is then NOT a key member).
+var c10KeyShapes = [][]c10F{
+	{},
+	{{Name: "ID", Kind: "uint"}},
+	{{Name: "ID", Kind: "uint", Tag: "primaryKey"}},
+	{{Name: "Code", Kind: "uint", Tag: "primaryKey;column:code"}},
+	{{Name: "Code", Kind: "str", Tag: "primaryKey"}},
+	{{Name: "Num", Kind: "int", Tag: "primaryKey;autoIncrement:false"}},
+	{{Name: "ID", Kind: "uint", Tag: "primaryKey;autoIncrement:false"}, {Name: "Locale", Kind: "str", Tag: "primaryKey"}},
+	{{Name: "ID", Kind: "uint", Tag: "primaryKey"}, {Name: "Locale", Kind: "str", Tag: "primaryKey;column:loc"}},
+	{{Name: "Locale", Kind: "str", Tag: "primaryKey"}, {Name: "ID", Kind: "uint", Tag: "primaryKey"}},
+	{{Name: "Tenant", Kind: "str", Tag: "primaryKey"}, {Name: "Seq", Kind: "uint", Tag: "primaryKey;autoIncrement"}},
+	{{Name: "A", Kind: "uint", Tag: "primaryKey"}, {Name: "B", Kind: "uint", Tag: "primaryKey"}},
+	{{Name: "A", Kind: "uint", Tag: "primaryKey"}, {Name: "B", Kind: "str", Tag: "primaryKey"}, {Name: "Ver", Kind: "int", Tag: "primaryKey"}},
+	{{Name: "ID", Kind: "uint", Tag: "primaryKey"}, {Name: "Locale", Kind: "str", Tag: "primaryKey"}, {Name: "Ver", Kind: "int", Tag: "primaryKey;autoIncrement:false"}},
+	{{Name: "ID", Kind: "uint"}, {Name: "Locale", Kind: "str", Tag: "primaryKey"}},
+	{{Name: "Locale", Kind: "str", Tag: "primary_key"}, {Name: "Id", Kind: "i64", Tag: "primaryKey;column:id"}},
+}
+
+var c10KeyPermTags = []string{"<-:create", "<-:create", "->", "<-:update", "<-:false", "<-"}
+
+// genC10SchemaK: like genC10Schema but the key is drawn from c10KeyShapes, its members sit at random positions
+// among the data fields (relative order kept), may carry permission tags, and a run of fields may live in an
+// embedded struct (with or without embeddedPrefix).
+func genC10SchemaK(rng *rand.Rand, wild bool) c10Sch {
+	base := genC10Schema(rng, wild)
+	data := base.Fields[1:]
+	shape := c10KeyShapes[rng.Intn(len(c10KeyShapes))]
+	var s c10Sch
+	pos := make([]int, len(shape))
+	for i := range pos {
+		pos[i] = rng.Intn(len(data) + 1)
+		if rng.Intn(2) == 0 {
+			pos[i] = 0
+		}
+	}
+	sort.Ints(pos)
+	k := 0
+	for i := 0; i <= len(data); i++ {
+		for k < len(shape) && pos[k] == i {
+			f := shape[k]
+			if rng.Intn(5) == 0 {
+				f.Tag = c10Join(c10KeyPermTags[rng.Intn(len(c10KeyPermTags))], f.Tag)
+			}
+			s.Fields = append(s.Fields, f)
+			k++
+		}
+		if i < len(data) {
+			s.Fields = append(s.Fields, data[i])
+		}
+	}
+	if rng.Intn(3) == 0 && len(s.Fields) >= 2 {
+		a := rng.Intn(len(s.Fields))
+		b := a + 1 + rng.Intn(3)
+		if b > len(s.Fields) {
+			b = len(s.Fields)
+		}
+		embed := []string{"Meta:m_", "Meta:", "Part:p_"}[rng.Intn(3)]
+		for i := a; i < b; i++ {
+			s.Fields[i].Embed = embed
+		}
+	}
+	return s
+}
+
+// c10KeyIdx: indices (into the flat field list) of the primary fields of the REAL parsed schema
+func c10KeyIdx(sch *schema.Schema) []int {
+	out := []int{}
+	for i, f := range sch.Fields {
+		if f.PrimaryKey && f.DBName != "" {
+			out = append(out, i)
+		}
+	}
+	return out
+}
+
+func c10IsKey(sch *schema.Schema, name string) bool {
+	for _, f := range sch.PrimaryFields {
+		if f.Name == name {
+			return true
+		}
+	}
+	return false
+}
+
+// c10KeyVal: the n-th non-zero value of a key component of this kind
+func c10KeyVal(kind string, n int) interface{} {
+	if kind == "str" {
+		return fmt.Sprintf("k%d", n)
+	}
+	return n
+}
+
+// c10GenValsK: every key component independently zero (pZeroKey %) or one of 3 small values; data fields as c10GenVals
+func c10GenValsK(rng *rand.Rand, s c10Sch, sch *schema.Schema, pZeroKey int, pNonZero int, salt int) c10Vals {
+	v := c10Vals{}
+	allZero := rng.Intn(100) < pZeroKey
+	for i, f := range s.Fields {
+		if sch.Fields[i].PrimaryKey {
+			if !allZero && rng.Intn(100) >= pZeroKey {
+				v[f.Name] = c10KeyVal(f.Kind, 1+rng.Intn(3))
+			}
+			continue
+		}
+		if rng.Intn(100) < pNonZero {
+			v[f.Name] = c10NonZero(rng, f, salt*10+i)
+		}
+	}
+	return v
+}
+
 // genC10Schema: wild = also spellings/tags that are only meaningful for the model tie (not for the e2e table).
 func genC10Schema(rng *rand.Rand, wild bool) c10Sch {
 	var s c10Sch
 	switch rng.Intn(10) {
 	case 0:
-		s.Fields = append(s.Fields, c10F{"ID", "uint", ""}) // prioritized primary key by name
+		s.Fields = append(s.Fields, c10F{Name: "ID", Kind: "uint", Tag: ""}) // prioritized primary key by name
 	case 1:
-		s.Fields = append(s.Fields, c10F{"Code", "uint", "primaryKey;column:code"})
+		s.Fields = append(s.Fields, c10F{Name: "Code", Kind: "uint", Tag: "primaryKey;column:code"})
 	default:
-		s.Fields = append(s.Fields, c10F{"ID", "uint", "primaryKey"})
+		s.Fields = append(s.Fields, c10F{Name: "ID", Kind: "uint", Tag: "primaryKey"})
 	}
 	names := append([]string{}, c10DataNames...)
 	rng.Shuffle(len(names), func(i, j int) { names[i], names[j] = names[j], names[i] })
@@ -124,19 +296,19 @@ func genC10Schema(rng *rand.Rand, wild bool) c10Sch {
 	}
 	switch rng.Intn(7) {
 	case 0, 1:
-		s.Fields = append(s.Fields, c10F{"UpdatedAt", "i64", autoPerm()})
+		s.Fields = append(s.Fields, c10F{Name: "UpdatedAt", Kind: "i64", Tag: autoPerm()})
 	case 2:
-		s.Fields = append(s.Fields, c10F{"UpdatedAt", "time", autoPerm()})
+		s.Fields = append(s.Fields, c10F{Name: "UpdatedAt", Kind: "time", Tag: autoPerm()})
 	case 3:
-		s.Fields = append(s.Fields, c10F{"Mtime", "i64", c10Join(autoPerm(), "autoUpdateTime")})
+		s.Fields = append(s.Fields, c10F{Name: "Mtime", Kind: "i64", Tag: c10Join(autoPerm(), "autoUpdateTime")})
 	case 4:
-		s.Fields = append(s.Fields, c10F{"Mtime", "i64", c10Join(autoPerm(), "autoUpdateTime:milli")})
+		s.Fields = append(s.Fields, c10F{Name: "Mtime", Kind: "i64", Tag: c10Join(autoPerm(), "autoUpdateTime:milli")})
 	}
 	switch rng.Intn(6) {
 	case 0, 1:
-		s.Fields = append(s.Fields, c10F{"CreatedAt", "i64", autoPerm()})
+		s.Fields = append(s.Fields, c10F{Name: "CreatedAt", Kind: "i64", Tag: autoPerm()})
 	case 2:
-		s.Fields = append(s.Fields, c10F{"Ctime", "i64", c10Join(autoPerm(), "autoCreateTime")})
+		s.Fields = append(s.Fields, c10F{Name: "Ctime", Kind: "i64", Tag: c10Join(autoPerm(), "autoCreateTime")})
 	}
 	return s
 }
@@ -172,6 +344,14 @@ func c10Export(sch *schema.Schema) map[string]interface{} {
 
 func c10OpenDry() *gorm.DB {
 	db, _, _ := OpenRec(&gorm.Config{NowFunc: fixedNowFunc, DryRun: true})
+	return db
+}
+
+// c10ParseDB: a handle used ONLY to parse generated types (Statement.Parse never reaches the connection pool), so the
+// pool is closed at once — tens of thousands of these are opened per thorough run and must not pile up.
+func c10ParseDB() *gorm.DB {
+	db, _, sqlDB := OpenRec(&gorm.Config{NowFunc: fixedNowFunc, DryRun: true})
+	_ = sqlDB.Close()
 	return db
 }
 
@@ -267,12 +447,13 @@ func c10Build(typ reflect.Type, s c10Sch, v c10Vals) reflect.Value {
 }
 
 func c10Fill(e reflect.Value, s c10Sch, v c10Vals) {
+	paths := s.c10Paths()
 	for i, f := range s.Fields {
 		x, ok := v[f.Name]
 		if !ok {
 			continue
 		}
-		fv := e.Field(i)
+		fv := e.FieldByIndex(paths[i])
 		switch f.Kind {
 		case "str":
 			fv.SetString(fmt.Sprint(x))
@@ -346,7 +527,7 @@ func c10DtoOf(rng *rand.Rand, s c10Sch) *c10Sch {
 }
 
 var c10Paths = []string{"upd_dto", "upd_dto", "upd_struct", "upd_struct", "upd_self", "updcols_struct", "upd_map", "upd_map", "update1", "updcol1", "updcols_map",
-	"save", "save", "create", "create_slice", "create_map", "create_maps", "upsert_all", "save_slice", "upsert_slice"}
+	"save", "save", "create", "create_slice", "create_map", "create_maps", "upsert_all", "save_slice", "upsert_slice", "delete", "delete_model"}
 
 type c10Obs struct {
 	Kind   string   `json:"kind"` // UPDATE | INSERT | none
@@ -354,7 +535,11 @@ type c10Obs struct {
 	Set    []string `json:"set"`
 	Where  []string `json:"where"`
 	Upsert []string `json:"upsert"`
+	// Conflict: conflict target of the ON CONFLICT clause (UpdateAll: gorm fills it with the primary fields)
+	Conflict []string `json:"conflict"`
 }
+
+var c10DelColRe = regexp.MustCompile("`" + c10Table + "`\\.`([^`]*)`")
 
 func c10MapOf(pairs [][]interface{}) map[string]interface{} {
 	m := map[string]interface{}{}
@@ -366,7 +551,9 @@ func c10MapOf(pairs [][]interface{}) map[string]interface{} {
 		case float64:
 			v = int(x)
 		case string:
-			if t, err := time.Parse(time.RFC3339, x); err == nil {
+			if strings.HasPrefix(x, "expr:") { // SQL expression value: `col` + 1000
+				v = gorm.Expr("`"+strings.TrimPrefix(x, "expr:")+"` + ?", 1000)
+			} else if t, err := time.Parse(time.RFC3339, x); err == nil {
 				v = t
 			}
 		}
@@ -425,9 +612,9 @@ func c10Exec(db *gorm.DB, typ reflect.Type, c *c10Case, extra func(*gorm.DB) *go
 	case "updcols_map":
 		return tx.Model(model()).UpdateColumns(c10MapOf(c.Map))
 	case "update1":
-		return tx.Model(model()).Update(fmt.Sprint(c.Map[0][0]), c.Map[0][1])
+		return tx.Model(model()).Update(fmt.Sprint(c.Map[0][0]), c10MapOf(c.Map[:1])[fmt.Sprint(c.Map[0][0])])
 	case "updcol1":
-		return tx.Model(model()).UpdateColumn(fmt.Sprint(c.Map[0][0]), c.Map[0][1])
+		return tx.Model(model()).UpdateColumn(fmt.Sprint(c.Map[0][0]), c10MapOf(c.Map[:1])[fmt.Sprint(c.Map[0][0])])
 	case "save":
 		return tx.Save(row(0).Interface())
 	case "create":
@@ -450,12 +637,20 @@ func c10Exec(db *gorm.DB, typ reflect.Type, c *c10Case, extra func(*gorm.DB) *go
 		return tx.Clauses(clause.OnConflict{UpdateAll: true}).Create(slice())
 	case "save_slice":
 		return tx.Save(slice())
+	case "updmap_slicemodel": // keys given through a SLICE model value: WHERE (key…) IN ((…),(…))
+		return tx.Model(slice()).Updates(c10MapOf(c.Map))
+	case "delete_slice":
+		return tx.Delete(slice())
+	case "delete": // key given through the deleted value itself
+		return tx.Delete(row(0).Interface())
+	case "delete_model": // key given through Model(&m) AND through the deleted value
+		return tx.Model(model()).Delete(row(0).Interface())
 	}
 	panic("unknown path " + c.Path)
 }
 
 func c10Observe(tx *gorm.DB) c10Obs {
-	o := c10Obs{Kind: "none", Insert: []string{}, Set: []string{}, Where: []string{}, Upsert: []string{}}
+	o := c10Obs{Kind: "none", Insert: []string{}, Set: []string{}, Where: []string{}, Upsert: []string{}, Conflict: []string{}}
 	sql := tx.Statement.SQL.String()
 	switch {
 	case strings.HasPrefix(sql, "UPDATE"):
@@ -474,6 +669,15 @@ func c10Observe(tx *gorm.DB) c10Obs {
 		for _, m := range c10WhereRe.FindAllStringSubmatch(where, -1) {
 			o.Where = append(o.Where, m[1])
 		}
+	case strings.HasPrefix(sql, "DELETE"):
+		// DELETE FROM `c10_t` WHERE (`c10_t`.`id`,`c10_t`.`loc`) IN ((?,?)) [AND `c10_t`.`id` = ?]: the key columns the
+		// WHERE constrains, in order
+		o.Kind = "DELETE"
+		if i := strings.Index(sql, " WHERE "); i >= 0 {
+			for _, m := range c10DelColRe.FindAllStringSubmatch(sql[i+7:], -1) {
+				o.Where = append(o.Where, m[1])
+			}
+		}
 	case strings.HasPrefix(sql, "INSERT"):
 		o.Kind = "INSERT"
 		if c, ok := tx.Statement.Clauses["VALUES"]; ok {
@@ -487,6 +691,9 @@ func c10Observe(tx *gorm.DB) c10Obs {
 			if oc, ok := c.Expression.(clause.OnConflict); ok {
 				for _, a := range oc.DoUpdates {
 					o.Upsert = append(o.Upsert, a.Column.Name)
+				}
+				for _, col := range oc.Columns {
+					o.Conflict = append(o.Conflict, col.Name)
 				}
 			}
 		}
@@ -531,7 +738,7 @@ func c10LeanOps(exp map[string]interface{}, c *c10Case) [][]interface{} {
 	}
 	switch c.Path {
 	case "upd_dto":
-		dsch, _, err := c10Parse(c10OpenDry(), *c.Dto)
+		dsch, _, err := c10Parse(c10ParseDB(), *c.Dto)
 		if err != nil {
 			panic(err)
 		}
@@ -560,6 +767,10 @@ func c10LeanOps(exp map[string]interface{}, c *c10Case) [][]interface{} {
 			rs = append(rs, c10KeyNames(r))
 		}
 		return [][]interface{}{{"c10.createmaps", exp, sel, om, rs}}
+	case "delete":
+		return [][]interface{}{{"c10.delconds", exp, rows[0], []string{}, false}}
+	case "delete_model":
+		return [][]interface{}{{"c10.delconds", exp, rows[0], c10NZ(c.Model), true}}
 	case "upsert_all":
 		return [][]interface{}{{"c10.create", exp, sel, om, false, rows[:1], true}}
 	case "upsert_slice", "save_slice":
@@ -570,7 +781,7 @@ func c10LeanOps(exp map[string]interface{}, c *c10Case) [][]interface{} {
 
 // c10Expected assembles the predicted observation from the Lean answers
 func c10Expected(c *c10Case, outs []json.RawMessage) (c10Obs, string) {
-	o := c10Obs{Kind: "none", Insert: []string{}, Set: []string{}, Where: []string{}, Upsert: []string{}}
+	o := c10Obs{Kind: "none", Insert: []string{}, Set: []string{}, Where: []string{}, Upsert: []string{}, Conflict: []string{}}
 	strs := func(raw json.RawMessage) []string {
 		var l []string
 		_ = json.Unmarshal(raw, &l)
@@ -627,6 +838,12 @@ func c10Expected(c *c10Case, outs []json.RawMessage) (c10Obs, string) {
 		p := pair(outs[0])
 		o.Kind = "INSERT"
 		o.Insert, o.Upsert = strs(p[0]), strs(p[1])
+		if len(p) > 2 {
+			o.Conflict = strs(p[2])
+		}
+	case "delete", "delete_model":
+		o.Kind = "DELETE"
+		o.Where = strs(outs[0])
 	case "create_map":
 		o.Kind = "INSERT"
 		o.Insert = strs(outs[0])
@@ -645,17 +862,17 @@ func c10Expected(c *c10Case, outs []json.RawMessage) (c10Obs, string) {
 }
 
 // c10GenMap: keys spelled as field name / column / unknown, values zero / non-zero / nil
-func c10GenMap(rng *rand.Rand, sch *schema.Schema, s c10Sch, wild bool, single bool, salt int, r *Result) [][]interface{} {
+func c10GenMap(rng *rand.Rand, sch *schema.Schema, s c10Sch, wild bool, single bool, salt int, r *Result, expr bool) [][]interface{} {
 	out := [][]interface{}{}
 	used := map[string]bool{}
 	n := 1 + rng.Intn(4)
 	if single {
 		n = 1
 	}
-	for i := 0; i < n; i++ {
-		idx := 1 + rng.Intn(len(s.Fields)-1)
-		if wild && rng.Intn(12) == 0 {
-			idx = 0
+	for tries := 0; len(out) < n && tries < 12*n; tries++ { // skipped draws (key member, repeated field) are retried
+		idx := rng.Intn(len(s.Fields))
+		if sch.Fields[idx].PrimaryKey && !(wild && rng.Intn(4) == 0) {
+			continue
 		}
 		f, pf := s.Fields[idx], sch.Fields[idx]
 		key, kind := pf.DBName, "column"
@@ -695,6 +912,9 @@ func c10GenMap(rng *rand.Rand, sch *schema.Schema, s c10Sch, wild bool, single b
 				val = c10GivenTime
 			}
 		}
+		if expr && (f.Kind == "int" || f.Kind == "i64") && pf.DBName != "" && !(pf.AutoUpdateTime > 0) && rng.Intn(5) == 0 {
+			vk, val = "expr", "expr:"+pf.DBName
+		}
 		if r != nil {
 			r.H("c10.map.key", kind)
 			r.H("c10.map.value", vk)
@@ -707,12 +927,19 @@ func c10GenMap(rng *rand.Rand, sch *schema.Schema, s c10Sch, wild bool, single b
 func genC10Case(rng *rand.Rand, db *gorm.DB, wild bool, r *Result) (*c10Case, *schema.Schema, reflect.Type) {
 	for {
 		s := genC10Schema(rng, wild)
+		if rng.Intn(3) > 0 {
+			s = genC10SchemaK(rng, wild)
+		}
 		sch, typ, err := c10Parse(db, s)
 		if err != nil {
 			if r != nil {
 				r.H("c10.schema.parse-error", "1")
 			}
 			continue
+		}
+		if r != nil {
+			r.H("c10.stmt.key-shape", c10ShapeOf(sch))
+			r.H("c10.stmt.embedded", fmt.Sprint(c10HasEmbed(s)))
 		}
 		c := &c10Case{Schema: s, Path: c10Paths[rng.Intn(len(c10Paths))]}
 		c.Selects = c10GenNames(rng, sch, 3, wild, r, "c10.select.form")
@@ -728,17 +955,9 @@ func genC10Case(rng *rand.Rand, db *gorm.DB, wild bool, r *Result) (*c10Case, *s
 			nrows = 1 + rng.Intn(3)
 		}
 		for i := 0; i < nrows; i++ {
-			pk := 1 + rng.Intn(5)
-			if rng.Intn(4) == 0 {
-				pk = 0
-			}
-			c.Rows = append(c.Rows, c10GenVals(rng, s, pk, 50, i+1))
+			c.Rows = append(c.Rows, c10GenValsK(rng, s, sch, 25, 50, i+1))
 		}
-		mpk := 1 + rng.Intn(5)
-		if rng.Intn(5) == 0 {
-			mpk = 0
-		}
-		c.Model = c10GenVals(rng, s, mpk, 0, 0)
+		c.Model = c10GenValsK(rng, s, sch, 20, 0, 0)
 		if c.Path == "upd_dto" {
 			c.Dto = c10DtoOf(rng, s)
 			if _, _, err := c10Parse(db, *c.Dto); err != nil {
@@ -746,17 +965,44 @@ func genC10Case(rng *rand.Rand, db *gorm.DB, wild bool, r *Result) (*c10Case, *s
 			}
 		}
 		if (c.Path == "upd_struct" || c.Path == "upd_dto") && rng.Intn(3) > 0 {
-			delete(c.Rows[0], s.Fields[0].Name)
+			for _, k := range c10KeyIdx(sch) {
+				delete(c.Rows[0], s.Fields[k].Name)
+			}
 		}
 		single := c.Path == "update1" || c.Path == "updcol1"
-		c.Map = c10GenMap(rng, sch, s, wild, single, 7, r)
+		c.Map = c10GenMap(rng, sch, s, wild, single, 7, r, strings.HasPrefix(c.Path, "upd"))
 		if c.Path == "create_maps" {
 			for i, n := 0, 1+rng.Intn(3); i < n; i++ {
-				c.MapRows = append(c.MapRows, c10GenMap(rng, sch, s, wild, false, 3+i, nil))
+				c.MapRows = append(c.MapRows, c10GenMap(rng, sch, s, wild, false, 3+i, nil, false))
 			}
 		}
 		return c, sch, typ
 	}
+}
+
+// c10ShapeOf: histogram bucket describing the key of the parsed schema
+func c10ShapeOf(sch *schema.Schema) string {
+	prio := "none"
+	if p := sch.PrioritizedPrimaryField; p != nil {
+		prio = "member"
+		if len(sch.PrimaryFields) == 1 {
+			prio = "single"
+		}
+	}
+	kinds := []string{}
+	for _, f := range sch.PrimaryFields {
+		kinds = append(kinds, string(f.DataType))
+	}
+	return fmt.Sprintf("pk=%d[%s] prioritized=%s", len(sch.PrimaryFields), strings.Join(kinds, ","), prio)
+}
+
+func c10HasEmbed(s c10Sch) bool {
+	for _, f := range s.Fields {
+		if f.Embed != "" {
+			return true
+		}
+	}
+	return false
 }
 
 func c10Restricted(s c10Sch) bool {
@@ -784,6 +1030,8 @@ func init() {
 		} else if tier == "search" {
 			n = 300
 		}
+		t0 := time.Now()
+		defer func() { r.Note("c10 perm+sao: n=%d took %.1fs", n, time.Since(t0).Seconds()) }()
 		db := c10OpenDry()
 		var ops [][]interface{}
 		var reals []string
@@ -794,12 +1042,16 @@ func init() {
 				db = c10OpenDry() // fresh schema cache
 			}
 			s := genC10Schema(rng, true)
+			if i%2 == 1 {
+				s = genC10SchemaK(rng, true) // every key shape, key members with permission tags, embedded structs
+			}
 			sch, _, err := c10Parse(db, s)
 			if err != nil {
 				r.H("c10.schema.parse-error", "1")
 				continue
 			}
 			r.H("c10.schema.fields", fmt.Sprint(len(s.Fields)))
+			r.H("c10.schema.key-shape", c10ShapeOf(sch))
 			for fi, f := range s.Fields {
 				pf := sch.Fields[fi]
 				if pf.Name != f.Name {
@@ -890,6 +1142,8 @@ func init() {
 		} else if tier == "search" {
 			n = 400
 		}
+		t0 := time.Now()
+		defer func() { r.Note("c10 stmt: n=%d took %.1fs", n, time.Since(t0).Seconds()) }()
 		db := c10OpenDry()
 		var ops [][]interface{}
 		type pend struct {
@@ -905,7 +1159,18 @@ func init() {
 				db = c10OpenDry()
 			}
 			c, sch, typ := genC10Case(rng, db, i%3 != 0, r)
-			tx := c10Exec(db, typ, c, nil)
+			var tx *gorm.DB
+			func() {
+				defer func() {
+					if p := recover(); p != nil { // the unchanged tree does not panic on any generated DryRun statement
+						r.Violate(Violation{Kind: "correspondence", Suite: "stmt", Input: c, Observed: fmt.Sprint("panic: ", p), Note: "gorm panicked while building the DryRun statement"})
+					}
+				}()
+				tx = c10Exec(db, typ, c, nil)
+			}()
+			if tx == nil {
+				continue
+			}
 			obs := c10Observe(tx)
 			if c.Path == "create_maps" {
 				sort.Strings(obs.Insert)
